@@ -115,6 +115,9 @@ def scenarios(tier, rng):
     # the publishing os.replace itself fails (EACCES: a reader holds the file on some platforms; EIO)
     for errn in ("EACCES", "EIO"):
         out.append(dict(_cache_sc(rng, 4, 3, 1, 40), fault_at_replace=errn))
+    out.append(dict(_doc_sc(rng, "jobdoc", "small", "setitem"), mt=False))
+    out.append(dict(_doc_sc(rng, "projdoc", "small", "update"), mt=False))
+    out.append(dict(_doc_sc(rng, "jobdoc", "mid", "assign"), mt=False))
     out.append(dict(_doc_sc(rng, "jobdoc", "small", "setitem"), fault_at_replace="EACCES"))
     out.append(dict(_doc_sc(rng, "projdoc", "mid", "update"), fault_at_replace="EIO"))
     n_doc, n_flush, n_cache, n_fresh = (14, 6, 8, 0) if tier == "quick" else (260, 110, 130, 8)
@@ -286,13 +289,23 @@ def build(sc, d, mutant=None):
         b.targets.append({"path": rel(fn_doc), "fmt": "json", "old": old,
                           "want": intended(old, dsc["op"], dsc["seed"])})
         b.api.append(reader)
+        def no_threads():
+            if dsc.get("mt") is False:
+                # the documented switch that turns the dependency's thread-safety layer off: the documents must
+                # still be replaced atomically (signac asks for write_concern=True)
+                signac.JSONDict.disable_multithreading()
         if dsc["op"] == "assign" and owner is not None:
             def assign():
+                no_threads()
                 probe = {}
                 apply_op(probe, "assign", dsc["seed"])     # the same new value as `intended`
                 owner.document = probe                        # whole-document assignment through the owner's setter
             return assign
-        return lambda: apply_op(holder(), dsc["op"], dsc["seed"])
+
+        def plain_op():
+            no_threads()
+            apply_op(holder(), dsc["op"], dsc["seed"])
+        return plain_op
 
     def job_reader(job_id):
         def rd():
